@@ -17,9 +17,11 @@ type c05Case struct {
 	Kind string `json:"kind"`           // kind of the designated node (or "dangling-document" / "dangling-pointer")
 	Base string `json:"base,omitempty"` // root location when it is not the usual one (dangling root locations)
 	Cont bool   `json:"cont,omitempty"` // ContinueOnError set in the options
+	JSON bool   `json:"ref_from_json,omitempty"` // the reference value is decoded from JSON instead of built with MustCreateRef
 }
 
-var c05Names = []string{"a", "a b", "a/b", "a~b", "a%b", "a#b", "a?b", "{x}", "é", `a"b`, "Item", "item", "200", "", "x-a", "$ref"}
+// the names after "$ref" are what a second, wrong round of unescaping turns into one of the earlier names
+var c05Names = []string{"a", "a b", "a/b", "a~b", "a%b", "a#b", "a?b", "{x}", "é", `a"b`, "Item", "item", "200", "", "x-a", "$ref", "a%20b", "a%2Fb", "a~1b", "a%25b", "%41"}
 
 // c05Content: the document every placement holds (titles carry the placement so that a wrong document shows).
 func c05Content(where string) map[string]interface{} {
@@ -207,7 +209,7 @@ func c05Exec(c *Ctx, cs c05Case) (outcome string) {
 		c05Pristine[cs.Root] = rootBefore
 	}
 	expGuard.warm()
-	r := doCall(ec, call{Fn: cs.Fn, Elem: cs.Ref, Root: cs.Root, Opts: expOpts{Cont: cs.Cont}}, nil, 0)
+	r := doCall(ec, call{Fn: cs.Fn, Elem: cs.Ref, Root: cs.Root, Opts: expOpts{Cont: cs.Cont}, RefJSON: cs.JSON}, nil, 0)
 	if ch := expGuard.changed(); ch != "" && !expGuard.reported {
 		expGuard.reported = true
 		viol("package-state-changed", "", "", "a resolution left package-level state behind: "+ch)
@@ -301,7 +303,8 @@ func c05Run(c *Ctx) {
 				for _, sp := range spells {
 					ref := spell(rootURL, du, frag, sp)
 					for _, rm := range rootModes {
-						run(c05Case{Fn: fnFor[nd.kind], Ref: ref, Root: rm, Kind: nd.kind})
+						// the fully escaped spelling is also the one whose reference value is decoded from JSON
+						run(c05Case{Fn: fnFor[nd.kind], Ref: ref, Root: rm, Kind: nd.kind, JSON: esc})
 					}
 					if du == rootURL && sp == spShort && nd.kind == "schema" {
 						run(c05Case{Fn: "ResolveRef", Ref: ref, Root: "typed", Kind: nd.kind})
@@ -379,7 +382,7 @@ func c05Run(c *Ctx) {
 func init() {
 	register(&CheckDef{
 		ID: "C05", Build: "light", Run: c05Run, RunCase: c05RunCase,
-		Rule:        "states = every node (schema at every child position, parameter, response, path item, items object at any depth) of a document whose definitions / parameters / responses / paths are named by an alphabet of 16 hostile names, held at 6 locations (root, sibling, sub-directory, parent directory, prefix-sibling directory, absolute http URL); transitions = Resolve{Ref,Parameter,Response,PathItem,Items}WithBase (and the base-less variants) for every spelling of the URI part (7) x fragment escaping (minimal / full) x way of supplying the root (typed pointer, typed value, generic JSON, location only), plus dangling pointers (last token replaced, token appended) and dangling documents; oracle = reference-model resolution (RFC 3986 + RFC 6901) of the same reference, decoded into the requested kind; nested $refs untouched, root unchanged, dangling => error and nil",
+		Rule:        "states = every node (schema at every child position, parameter, response, path item, items object at any depth) of a document whose definitions / parameters / responses / paths are named by an alphabet of 21 hostile names (among them the names a second round of unescaping maps onto another name of the alphabet), held at 6 locations (root, sibling, sub-directory, parent directory, prefix-sibling directory, absolute http URL); transitions = Resolve{Ref,Parameter,Response,PathItem,Items}WithBase (and the base-less variants) for every spelling of the URI part (7) x fragment escaping (minimal with a constructed reference value / full with a reference value decoded from JSON) x way of supplying the root (typed pointer, typed value, generic JSON, location only), plus dangling pointers (last token replaced, token appended) and dangling documents; oracle = reference-model resolution (RFC 3986 + RFC 6901) of the same reference, decoded into the requested kind; nested $refs untouched, root unchanged, dangling => error and nil",
 		Assumptions: []string{"the expected value is the designated JSON decoded into the requested Go type and re-encoded (losses of the codec itself are C01's business)"},
 		MinOutcomes: 2,
 	})
